@@ -26,7 +26,12 @@ func init() {
 }
 
 // serveScope computes the functions exposed to peer input.
-func serveScope(c *cx) (fns []*eng.Fn, why map[*eng.Fn]string) {
+func serveScope(c *cx) (fns []*eng.Fn, why map[*eng.Fn]string) { return serveScopeWith(c, false) }
+
+// serveScopeWith: withIter adds the methods of the iterator types the request
+// helpers return (they run on the application's goroutine: in scope for the
+// no-panic rules, not for the rules about blocking the serve loop).
+func serveScopeWith(c *cx, withIter bool) (fns []*eng.Fn, why map[*eng.Fn]string) {
 	s := c.p.SSA()
 	var roots []*ssa.Function
 	for _, f := range c.allFns() {
@@ -41,6 +46,11 @@ func serveScope(c *cx) (fns []*eng.Fn, why map[*eng.Fn]string) {
 		}
 		switch f.Short {
 		case "xmpp.(*Session).Serve", "xmpp.handleInputStream", "xmpp.unmarshalIQ", "xmpp.iterIQ":
+			isRoot = true
+		}
+		// the iterators that the request helpers hand to the application go on
+		// parsing the peer's reply after the helper has returned
+		if withIter && f.Sig() != nil && f.Sig().Recv() != nil && strings.HasSuffix(eng.TypeStr(f.Sig().Recv().Type()), "Iter") && strings.HasPrefix(f.Pkg.PkgPath, eng.ModPath) {
 			isRoot = true
 		}
 		if !isRoot {
@@ -89,7 +99,8 @@ var acceptC09 = []accept{
 
 func runC09(p *eng.Prog, r *eng.Report, tier string) {
 	c := &cx{p, r, tier}
-	fns, why := serveScope(c)
+	fns, why := serveScopeWith(c, true)
+	servefns, servewhy := serveScope(c)
 	r.Note("scope: %d functions exposed to peer input", len(fns))
 	r.Floor("C09.0", "functions in the peer-input scope", len(fns), 150)
 	nAssert, nPanic := 0, 0
@@ -127,7 +138,7 @@ func runC09(p *eng.Prog, r *eng.Report, tier string) {
 		c09IterCurrent(c, f, why[f])
 	}
 	r.Note("bare assertions in scope: %d, explicit panics in scope: %d", nAssert, nPanic)
-	chanRules(c, "C09.4", fns, why)
+	chanRules(c, "C09.4", servefns, servewhy)
 	goroutineEndsItsTracking(c, "C09.24")
 	resultUsedBeforeErrorTest(c, "C09.25", fns)
 	// C09.18 (= C06.6) every response is released exactly once: an unreleased
